@@ -35,18 +35,45 @@ type nmModel struct {
 }
 
 type nmRun struct {
-	t     *Tape
-	w     *World
-	m     *nmModel
-	trace []string
-	stats map[string]int
-	hash  map[uint64]bool
+	t *Tape
+	w *World
+	m *nmModel
+	// armKind/armAt: fault armed for the next call of the current step
+	armKind FaultKind
+	armAt   int
+	trace   []string
+	stats   map[string]int
+	hash    map[uint64]bool
 }
 
 func (r *nmRun) ev(f string, a ...any) { r.trace = append(r.trace, fmt.Sprintf(f, a...)) }
 
+// nmFaulted unwinds a step whose call failed because of an injected storage fault or
+// cancellation: such a call must have changed nothing, so the model is left as it was.
+type nmFaulted struct{}
+
 func (r *nmRun) call(method string, req proto.Message) (proto.Message, error) {
-	return r.w.Call(context.Background(), method, req)
+	if r.armKind == FaultNone {
+		return r.w.Call(context.Background(), method, req)
+	}
+	ctx, cancel := context.WithCancel(context.Background())
+	defer cancel()
+	S.Arm(r.armKind, r.armAt, cancel)
+	kind := r.armKind
+	r.armKind = FaultNone
+	resp, err := r.w.Call(ctx, method, req)
+	_, fired := S.Disarm()
+	if fired {
+		r.stats["names_fault_fired_"+kind.String()]++
+	}
+	if fired && err != nil {
+		if p, ok := isPanic(err); ok {
+			panic(fmt.Sprintf("%s panicked under an injected fault: %v", method, p.Val))
+		}
+		r.ev("%s failed under injected %v -> %v (no change expected)", method, kind, code(err))
+		panic(nmFaulted{})
+	}
+	return resp, err
 }
 
 func (r *nmRun) expect(what string, err error, want codes.Code) *Violation {
@@ -89,10 +116,24 @@ func (r *nmRun) live(kind string) string {
 
 func projectOf(name string) string { return strings.Join(strings.Split(name, "/")[:2], "/") }
 
-func (r *nmRun) step() *Violation {
+func (r *nmRun) step() (v *Violation) {
+	defer func() {
+		if x := recover(); x != nil {
+			if _, ok := x.(nmFaulted); ok {
+				v = nil
+				return
+			}
+			panic(x)
+		}
+	}()
 	t := r.t
 	t.Frame()
 	m := r.m
+	if t.Bool(8) {
+		// the next call runs under a storage fault / cancellation; if it fails, nothing changed
+		r.armKind = []FaultKind{FaultStmtErr, FaultCommitErr, FaultCancel, FaultCancelAfter}[t.Intn(4)]
+		r.armAt = 1 + t.Intn(4)
+	}
 	switch t.Pick([]int{8, 3, 3, 8, 3, 3, 4, 2, 3, 5, 5, 3, 5, 3}) {
 	case 0:
 		n := r.name("topics")
